@@ -119,12 +119,21 @@ func flushBeforeSuccess(c *cx, id string, f *eng.Fn) {
 			return ok && rootLocal(f, s2.X) == wv
 		}
 		for _, rs := range g.Returns {
-			if g.RetKindOf(rs) != eng.RetSuccess {
+			if g.RetKindOf(rs) == eng.RetError {
 				continue
 			}
 			rpt, _ := g.Where(rs)
 			// paths on which w was used for writing after the defer
 			bad := false
+			// a return whose error operand is the result of a write through w
+			// (return w.EncodeToken(...)) can be nil although the bytes are still
+			// in the buffer: nothing after it can flush
+			if g.RetKindOf(rs) != eng.RetSuccess {
+				if !uses(rs) || isFlush(rpt, rs) {
+					continue
+				}
+				bad = true
+			}
 			for _, b := range g.Blocks {
 				if !b.Live {
 					continue
